@@ -133,11 +133,19 @@ theorem resolve_congr_lookup (v : Value) (t1 t2 : SymTab) (h : ∀ k, t1.get? k 
 
 /-! ### calculate_address_offset -/
 
-/-- the Python int `calculate_address_offset` computes from the statement address `a` and the SIGNED constant `k`
-(repair batch B2) -/
-def addrArith (op : Char) (a : Nat) (k : Int) : Option Int :=
-  if op == '+' then some ((a : Int) + k) else if op == '-' then some (((a : Int) - k) % 65536)
-  else if op == '*' then some ((a : Int) * k) else (if k = 0 then none else some (Int.tdiv (a : Int) k))
+/-- the Python int `calculate_address_offset` computes from the LEFT operand value `a` and the RIGHT operand value `b`,
+in the written order (repair batch B3; a label contributes its address, a constant its signed value) -/
+def addrArith (op : Char) (a b : Int) : Option Int :=
+  if op == '+' then some (a + b) else if op == '-' then some (a - b)
+  else if op == '*' then some (a * b) else (if b = 0 then none else some (Int.tdiv a b))
+
+/-- a result below zero is an address modulo 65536 (repair batch B3: for every operator) -/
+def addrWrap (z : Int) : Int := if z < 0 then z % 65536 else z
+
+theorem addrWrap_nonneg (z : Int) : 0 ≤ addrWrap z := by unfold addrWrap; split <;> omega
+theorem addrWrap_of_nonneg {z : Int} (h : 0 ≤ z) : addrWrap z = z := by unfold addrWrap; split <;> omega
+theorem addrWrap_of_neg {z : Int} (h : z < 0) : addrWrap z = z % 65536 := by unfold addrWrap; simp [h]
+theorem addrWrap_neg_lt {z : Int} (h : z < 0) : addrWrap z < 65536 := by rw [addrWrap_of_neg h]; omega
 
 /-- `NumericValue(z, size_hint=4, mode=EXTENDED)`; a value that does not fit is reported as a
 TranslationError (`diag`) since fix 8dc2b21/316e504 (it used to escape as `internal`) -/
@@ -150,76 +158,93 @@ theorem numericOfInt_ext (z : Int) :
   unfold numericOfInt addrResult
   by_cases h : z > 65535 <;> simp [h, initHint, postInit]
 
+/-- the result value is never negative: the wrapped integer as a 16-bit extended number, or a diagnostic -/
+theorem addrResult_wrap (z : Int) :
+    addrResult (addrWrap z) =
+      if addrWrap z > 65535 then .diag else .ok (.numeric (addrWrap z).toNat (some 4) .extended false) := by
+  have := addrWrap_nonneg z
+  unfold addrResult
+  split
+  · rfl
+  · have h1 : decide (addrWrap z < 0) = false := by simp; omega
+    have h2 : (addrWrap z).natAbs = (addrWrap z).toNat := by omega
+    rw [h1, h2]
+
+/-- `addrCombine` (the arithmetic half of `addrOffset`, see Lemmas/AddrOther.lean) in closed form -/
+theorem addrCombine_eq (op : Char) (a b : Int) :
+    addrCombine op a b = (match addrArith op a b with | none => .diag | some z => addrResult (addrWrap z)) := by
+  change (match addrArith op a b with
+    | none => Outcome.diag
+    | some z => (match numericOfInt (addrWrap z) (some 4) .extended with | .ok nv => Outcome.ok nv | .error _ => .diag)) = _
+  cases addrArith op a b with
+  | none => rfl
+  | some z => exact numericOfInt_ext _
+
+/-- label `op` constant -/
 theorem addrOffset_addr_num (ss : List Stmt) (ai a k : Nat) (ma mk m : Mode) (hk : Option Nat) (nk ae : Bool)
     (op : Char) (h : addrIntOf ss ai = some a) :
     addrOffset ss (.expr (.address ai ma) (.numeric k hk mk nk) op m ae) =
-      (match addrArith op a (sInt k nk) with | none => .diag | some z => addrResult z) := by
-  simp only [addrOffset, Value.isAddress, Value.isNumeric, Value.isNegative, Value.int?, if_true, Bool.false_eq_true, if_false]
-  simp only [h]
-  change (match addrArith op a (sInt k nk) with
-    | none => Outcome.diag
-    | some z => (match numericOfInt z (some 4) .extended with | .ok nv => Outcome.ok nv | .error _ => .diag)) = _
-  cases addrArith op a (sInt k nk) with
-  | none => rfl
-  | some z => exact numericOfInt_ext z
+      (match addrArith op a (sInt k nk) with | none => .diag | some z => addrResult (addrWrap z)) := by
+  rw [addrOffset_expr, addrOperand_address, addrOperand_numeric, h]
+  exact addrCombine_eq op a (sInt k nk)
 
-/-- the mirrored form: the constant on the left, the address on the right; the model still computes
-`address op constant` -/
+/-- constant `op` label: since repair batch B3 the operands are taken in the written order (`5-LABEL` is 5 minus
+the address, `$4000/LABEL` divides by the address) -/
 theorem addrOffset_num_addr (ss : List Stmt) (ai a k : Nat) (ma mk m : Mode) (hk : Option Nat) (nk ae : Bool)
     (op : Char) (h : addrIntOf ss ai = some a) :
     addrOffset ss (.expr (.numeric k hk mk nk) (.address ai ma) op m ae) =
-      (match addrArith op a (sInt k nk) with | none => .diag | some z => addrResult z) := by
-  simp only [addrOffset, Value.isAddress, Value.isNumeric, Value.isNegative, Value.int?, if_true, Bool.false_eq_true, if_false]
-  simp only [h]
-  change (match addrArith op a (sInt k nk) with
-    | none => Outcome.diag
-    | some z => (match numericOfInt z (some 4) .extended with | .ok nv => Outcome.ok nv | .error _ => .diag)) = _
-  cases addrArith op a (sInt k nk) with
-  | none => rfl
-  | some z => exact numericOfInt_ext z
+      (match addrArith op (sInt k nk) a with | none => .diag | some z => addrResult (addrWrap z)) := by
+  rw [addrOffset_expr, addrOperand_address, addrOperand_numeric, h]
+  exact addrCombine_eq op (sInt k nk) a
 
-/-- `addrCombine` (the arithmetic half of `addrOffset`, see Lemmas/AddrOther.lean) in closed form -/
-theorem addrCombine_eq (op : Char) (a : Nat) (k : Int) :
-    addrCombine op a k = (match addrArith op a k with | none => .diag | some z => addrResult z) := by
-  change (match addrArith op a k with
-    | none => Outcome.diag
-    | some z => (match numericOfInt z (some 4) .extended with | .ok nv => Outcome.ok nv | .error _ => .diag)) = _
-  cases addrArith op a k with
-  | none => rfl
-  | some z => exact numericOfInt_ext z
-
-/-- label `op` label (since fix 9045646): the constant is the ADDRESS of the second label's statement, so the
-result is computed from both addresses, `a_i op a_j` (before the repair the statement INDEX `aj` was used) -/
+/-- label `op` label (since fix 9045646): both operands are the ADDRESSES of the labels' statements, `a_i op a_j` -/
 theorem addrOffset_addr_addr (ss : List Stmt) (ai aj a b : Nat) (ma mb m : Mode) (ae : Bool) (op : Char)
     (h : addrIntOf ss ai = some a) (h' : addrIntOf ss aj = some b) :
     addrOffset ss (.expr (.address ai ma) (.address aj mb) op m ae) =
-      (match addrArith op a (b : Int) with | none => .diag | some z => addrResult z) := by
-  rw [addrOffset_expr]
-  simp only [Value.isAddress, if_true, Value.int?, addrOther_address, h, h']
+      (match addrArith op (a : Int) (b : Int) with | none => .diag | some z => addrResult (addrWrap z)) := by
+  rw [addrOffset_expr, addrOperand_address, addrOperand_address, h, h']
   exact addrCombine_eq op a b
 
-/-- a label expression whose other operand is neither a number nor a label (a symbol that stayed a string, a
-multi-byte value, ...): "unresolved expression", a diagnostic -- whatever the statement list is.
-Label on the left: -/
-theorem addrOffset_addr_other (ss : List Stmt) (ai : Nat) (ma m : Mode) (ae : Bool) (op : Char) (r : Value)
-    (hr1 : r.isAddress = false) (hr2 : r.isNumeric = false) :
-    addrOffset ss (.expr (.address ai ma) r op m ae) = .diag := by
-  rw [addrOffset_expr]
-  simp only [Value.isAddress, if_true, addrOther_other ss r hr1 hr2]
+/-- what ONE operand of a label expression stands for: a label its statement's address, a number its signed value -/
+inductive AddrOpd (ss : List Stmt) : Value → Int → Prop
+  | label {ai a : Nat} {m : Mode} : addrIntOf ss ai = some a → AddrOpd ss (.address ai m) (a : Int)
+  | num {k : Nat} {h : Option Nat} {m : Mode} {n : Bool} : AddrOpd ss (.numeric k h m n) (sInt k n)
 
-/-- ... and label on the right -/
-theorem addrOffset_other_addr (ss : List Stmt) (ai : Nat) (ma m : Mode) (ae : Bool) (op : Char) (l : Value)
+theorem AddrOpd.operand {ss : List Stmt} {v : Value} {x : Int} (h : AddrOpd ss v x) : addrOperand ss v = .ok x := by
+  cases h with
+  | label h => rw [addrOperand_address, h]
+  | num => rfl
+
+/-- **`calculate_address_offset` in general** (labels and numbers in any combination and order): the written
+operation on the two operand values, below zero reduced modulo 65536, above 65535 a diagnostic -/
+theorem addrOffset_opd {ss : List Stmt} {l r : Value} {x y : Int} (hl : AddrOpd ss l x) (hr : AddrOpd ss r y)
+    (op : Char) (m : Mode) (ae : Bool) :
+    addrOffset ss (.expr l r op m ae) =
+      (match addrArith op x y with
+       | none => .diag
+       | some z => if addrWrap z > 65535 then .diag else .ok (.numeric (addrWrap z).toNat (some 4) .extended false)) := by
+  rw [addrOffset_expr, hl.operand, hr.operand]
+  simp only [addrCombine_eq, addrResult_wrap]
+
+/-- a label expression whose other operand is neither a number nor a label (a symbol that stayed a string, a
+multi-byte value, ...): "unresolved expression", a diagnostic.  Label on the left (the label names a statement): -/
+theorem addrOffset_addr_other (ss : List Stmt) (ai a : Nat) (ma m : Mode) (ae : Bool) (op : Char) (r : Value)
+    (h : addrIntOf ss ai = some a) (hr1 : r.isAddress = false) (hr2 : r.isNumeric = false) :
+    addrOffset ss (.expr (.address ai ma) r op m ae) = .diag := by
+  rw [addrOffset_expr, addrOperand_address, h, addrOperand_other ss r hr1 hr2]
+
+/-- ... and label (or anything else) on the right: whatever the statement list is -/
+theorem addrOffset_other_addr (ss : List Stmt) (m : Mode) (ae : Bool) (op : Char) (l r : Value)
     (hl1 : l.isAddress = false) (hl2 : l.isNumeric = false) :
-    addrOffset ss (.expr l (.address ai ma) op m ae) = .diag := by
-  rw [addrOffset_expr]
-  simp only [hl1, Bool.false_eq_true, if_false, addrOther_other ss l hl1 hl2]
+    addrOffset ss (.expr l r op m ae) = .diag := by
+  rw [addrOffset_expr, addrOperand_other ss l hl1 hl2]
 
 /-- a second label that names no statement is still an internal error (it cannot happen after `buildSymTab`:
 every `.address j` of the symbol table is a statement index) -/
 theorem addrOffset_addr_addr_missing (ss : List Stmt) (ai aj : Nat) (ma mb m : Mode) (ae : Bool) (op : Char)
     (h' : addrIntOf ss aj = none) :
     addrOffset ss (.expr (.address ai ma) (.address aj mb) op m ae) = .internal := by
-  rw [addrOffset_expr]
-  simp only [Value.isAddress, if_true, Value.int?, addrOther_address, h']
+  rw [addrOffset_expr, addrOperand_address, addrOperand_address, h']
+  cases addrIntOf ss ai <;> rfl
 
 end CoCo.Asm
